@@ -175,11 +175,12 @@ def solve_with_truth(e, pins, extra=(), timeout=20000, rounds=8):
     return None
 
 
-def equality_obligation(prog, ck):
+def equality_obligation(prog, ck, T='SM2Element', M=None):
     """real (*fiat.SM2Element).Equal and IsZero: with Bytes() replaced by 32 arbitrary bytes per receiver (its
     contract: the canonical encoding, proved separately), the result is 1 exactly when the two encodings agree in all 32
     bytes (IsZero: when all 32 are zero) and 0 otherwise.  Returns (verdict, detail, witness (a, b) or None)."""
     FIAT = MOD + '/sm2/internal/fiat'
+    M = P if M is None else M
     eng = new_engine(prog, timeout_ms=60000)
     cur = {}
 
@@ -188,16 +189,16 @@ def equality_obligation(prog, ck):
             return e.new_slice([0] * 32)          # sm2ZeroEncoding = encoding of the zero element
         recv = a[0]
         return e.new_slice(list(cur.get(recv.obj, cur.get('other'))))
-    eng.intercepts['(*%s.SM2Element).Bytes' % FIAT] = fake_bytes
+    eng.intercepts['(*%s.%s).Bytes' % (FIAT, T)] = fake_bytes
     bad = []
 
     def run_eq(e):
         av, bv_ = sym_bytes(e, 'a', 32), sym_bytes(e, 'b', 32)
-        o1 = e.new_obj([[0, 0, 0, 0]], FIAT + '.SM2Element')
-        o2 = e.new_obj([[0, 0, 0, 0]], FIAT + '.SM2Element')
+        o1 = e.new_obj([[0, 0, 0, 0]], FIAT + '.' + T)
+        o2 = e.new_obj([[0, 0, 0, 0]], FIAT + '.' + T)
         cur.clear(); cur[o1] = av; cur[o2] = bv_; cur['other'] = bv_
-        e.assume(z3.And(z3.ULT(bytes_to_bv(av), z3.BitVecVal(P, 256)), z3.ULT(bytes_to_bv(bv_), z3.BitVecVal(P, 256))))
-        out = e.call_outcome('(*%s.SM2Element).Equal' % FIAT, [Ptr(o1, ()), Ptr(o2, ())])
+        e.assume(z3.And(z3.ULT(bytes_to_bv(av), z3.BitVecVal(M, 256)), z3.ULT(bytes_to_bv(bv_), z3.BitVecVal(M, 256))))
+        out = e.call_outcome('(*%s.%s).Equal' % (FIAT, T), [Ptr(o1, ()), Ptr(o2, ())])
         if out.kind != 'return':
             return ('cex', 'Equal panics: ' + out.panic.msg, None, av, bv_)
         r = tobv(out.values[0] if isinstance(out.values, (list, tuple)) else out.values, 64)
@@ -207,10 +208,10 @@ def equality_obligation(prog, ck):
 
     def run_zero(e):
         av = sym_bytes(e, 'a', 32)
-        o1 = e.new_obj([[0, 0, 0, 0]], FIAT + '.SM2Element')
+        o1 = e.new_obj([[0, 0, 0, 0]], FIAT + '.' + T)
         cur.clear(); cur[o1] = av; cur['other'] = av
-        e.assume(z3.ULT(bytes_to_bv(av), z3.BitVecVal(P, 256)))
-        out = e.call_outcome('(*%s.SM2Element).IsZero' % FIAT, [Ptr(o1, ())])
+        e.assume(z3.ULT(bytes_to_bv(av), z3.BitVecVal(M, 256)))
+        out = e.call_outcome('(*%s.%s).IsZero' % (FIAT, T), [Ptr(o1, ())])
         if out.kind != 'return':
             return ('cex', 'IsZero panics: ' + out.panic.msg, None, av, [0] * 32)
         r = tobv(out.values[0] if isinstance(out.values, (list, tuple)) else out.values, 64)
